@@ -1,4 +1,5 @@
 import Memterm.Proofs.InvStep
+import Memterm.Proofs.SparseStep
 import Memterm.Spec.C13
 
 /-
@@ -127,6 +128,19 @@ example :
     let t := deleteCharacters (insertCharacters s (some 1)) (some 1)
     display env t = [[97, 98, 99, 100, 32]] := by
   decide
+
+/-! #### the sparse layer: the loops of `insert_characters` / `delete_characters` over the row's HashMap -/
+
+/-- the reverse loop of ICH (move `x` to `x + n` while inside the row, blank `x`), run on a row map in
+    which any cell may be absent, observes as the dense splice -/
+theorem sparse_ich (ss : Sparse.SScreen) (n : Option Nat) (hx : ss.s.cursor.x ≤ ss.s.columns) :
+    Sparse.abs (Sparse.insertCharacters ss n) = insertCharacters (Sparse.abs ss) n :=
+  Sparse.abs_insertCharacters ss n hx
+
+/-- the forward loop of DCH (move `x + n` to `x`, remove the tail) likewise -/
+theorem sparse_dch (ss : Sparse.SScreen) (n : Option Nat) (hx : ss.s.cursor.x ≤ ss.s.columns) :
+    Sparse.abs (Sparse.deleteCharacters ss n) = deleteCharacters (Sparse.abs ss) n :=
+  Sparse.abs_deleteCharacters ss n hx
 
 end C13
 end Memterm
